@@ -118,7 +118,8 @@ def compile_text(text, limit=5.0, via_file=False):
     """returns (outcome, detail): outcome in story / diag / internal / hang.
     via_file: through compile_file (which also writes the JSON file) in a private temp directory"""
     from bardic.compiler.compiler import BardCompiler
-    for attempt_limit in (limit, limit * 8):
+    # (slow is not the same as hanging: a text that needs 13 s on an idle machine needs far more while 16 workers are busy)
+    for attempt_limit in (limit, limit * 8, limit * 48):
         d = tempfile.mkdtemp(prefix="verif_c11_") if via_file else None
         try:
             with quiet(), time_limit(attempt_limit):
@@ -147,7 +148,7 @@ def compile_text(text, limit=5.0, via_file=False):
         finally:
             if d:
                 shutil.rmtree(d, ignore_errors=True)
-    return "hang", f"no answer within {limit * 8:.0f} s"
+    return "hang", f"no answer within {limit * 48:.0f} s"
 
 
 def gen_sequence(r, max_len):
